@@ -274,4 +274,251 @@ theorem pollWrite_spec (sc : Sched) (o : Ossl) (v : View) (buf : List UInt8) (ha
   | err => exact absurd g5 id
   | panic => exact absurd g5 id
 
+/-! ### `poll_close` -/
+
+/-- a transport flush over the plain transport -/
+theorem ioFlush_direct (sc : Sched) (v : View) (hd : sc.astream = false) :
+    (v.tp.cf < flushDelay sc v.tp ∧ ∃ v', ioFlush sc v = (v', .pending .self) ∧ v'.txs = v.txs ∧ v'.rx = v.rx ∧
+      v'.tp.wbuf = v.tp.wbuf ∧ v'.tx = v.tx) ∨
+    (¬ v.tp.cf < flushDelay sc v.tp ∧ ∃ v', ioFlush sc v = (v', .ready ()) ∧ v'.txs = v.txs ∧ v'.rx = v.rx ∧
+      v'.tp.wbuf.toList = [] ∧ v'.tx.closed = v.tx.closed) := by
+  unfold ioFlush tFlush
+  simp only [hd, Bool.false_eq_true, if_false]
+  by_cases hlt : v.tp.cf < flushDelay sc v.tp
+  · left; simp [hlt, View.txs]
+  · right
+    simp only [hlt, if_false]
+    refine ⟨not_false, _, rfl, ?_⟩
+    unfold drain
+    by_cases hw : v.tp.wbuf.isEmpty = true
+    · have hw' := (Q.isEmpty_iff _).1 hw
+      simp [hw, View.txs, hw']
+    · simp only [hw, Bool.false_eq_true, if_false]
+      have h1 := pushTx_txs { v with tp := { v.tp with cf := 0, wbuf := Q.empty } } v.tp.wbuf.toList
+      obtain ⟨h2a, h2b, _, h2d⟩ := pushTx_other { v with tp := { v.tp with cf := 0, wbuf := Q.empty } } v.tp.wbuf.toList
+      refine ⟨?_, h2b, by rw [h2a]; simp, h2d⟩
+      simp [View.txs, h1, h2a]
+
+/-- **`TlsStream::poll_close`** (native-tls back-end): `Ready` means the close_notify record has been handed to
+the transport, after everything written before. Whether it has *left the endpoint* depends on the transport:
+it has when the flush that `SSL_shutdown` issues is not delayed (`flushDelay = 0`: the guard that separates
+F150, `Cex.C15.f150_alert_stranded`); `poll_close` neither retries a `Pending` flush nor closes the transport. -/
+theorem pollClose_spec (sc : Sched) (o : Ossl) (v : View) (ha : App sc v) (hout : o.out = [])
+    (hcl : o.close = .none) (hhs : o.handshaken = true) (hfuel : 24 < sc.fuel) :
+    let r := pollClose sc o v
+    App sc r.2.1 ∧ r.1.ctx = false ∧ r.2.1.tx.closed = false ∧
+    (match r.2.2 with
+      | .ready () => r.1.close = .sent ∧ r.1.out = [] ∧ r.2.1.txs = v.txs ++ alertRecord ∧
+          (flushDelay sc v.tp = 0 → r.2.1.tp.wbuf.toList = [] ∧ r.2.1.tx.q.toList = v.txs ++ alertRecord)
+      | .pending p => p = .self ∧ r.2.1.own = true ∧ r.1.close = .queued ∧
+          committed r.1 r.2.1 = v.txs ++ alertRecord
+      | .err => False
+      | .panic => False) := by
+  intro r
+  have hsent : (o.close = CloseState.sent) = False := by simp [hcl]
+  let o1 : Ossl := { o with ctx := true, out := o.out ++ alertRecord, close := .queued }
+  have hlen1 : o1.out.length < sc.fuel := by simp [o1, hout, alertRecord]; omega
+  have hp := pushOut_spec sc sc.fuel o1 v ha rfl hlen1
+  have hr : r = (match pushOut sc sc.fuel o1 v with
+      | (o, v, .ok ()) =>
+        let o := { o with close := .sent }
+        let x := bioFlush sc o v
+        ({ x.1 with ctx := false }, x.2.1, .ready ())
+      | (o, v, .wouldBlock p) => ({ o with ctx := false }, v, .pending p)
+      | (o, v, .err) => ({ o with ctx := false }, v, .err)
+      | (o, v, .panic) => ({ o with ctx := false }, v, .panic)) := by
+    simp only [r, pollClose, withContext, sslShutdown, hcl, o1]
+    simp only [show (CloseState.none = CloseState.sent) = False by simp, if_false, if_true]
+    generalize pushOut sc sc.fuel _ v = res
+    obtain ⟨o2, v2, r2⟩ := res
+    cases r2 <;> rfl
+  rw [hr]
+  generalize pushOut sc sc.fuel o1 v = res at hp
+  obtain ⟨o2, v2, r2⟩ := res
+  obtain ⟨g1, g2, g3, g4, g5c, g6c, g5⟩ := hp
+  simp only at g1 g2 g3 g4 g5 g5c g6c
+  obtain ⟨_, _, _, _, s5, _, s7, s8⟩ := g2
+  cases r2 with
+  | err => exact absurd g5 id
+  | panic => exact absurd g5 id
+  | wouldBlock p =>
+    simp only at g5 ⊢
+    refine ⟨g1, trivial, g1.open_tx, g5.1, g5.2.1, by rw [s5], ?_⟩
+    simp only [committed, g5.2.2, o1, hout, List.nil_append]
+  | ok u =>
+    cases u
+    simp only at g5 ⊢
+    have hctx2 : o2.ctx = true := s8
+    have hhs2 : o2.handshaken = true := by rw [s7]; exact hhs
+    have htxs2 : v2.txs = v.txs ++ alertRecord := by rw [g5.2]; simp [o1, hout]
+    have hfd : flushDelay sc v2.tp = flushDelay sc v.tp := by simp only [flushDelay, g4]
+    -- the ignored flush
+    rcases ioFlush_direct sc v2 ha.direct with ⟨hlt, v3, heq, f1, f2, f3, f4⟩ | ⟨hge, v3, heq, f1, f2, f3, f4⟩
+    · have hb : bioFlush sc { o2 with close := .sent } v2 = ({ o2 with close := .sent }, v3, .wouldBlock .self) := by
+        simp [bioFlush, hctx2, hhs2, heq]
+      simp only [hb]
+      refine ⟨⟨ha.direct, ha.lim, by rw [f4]; exact g1.open_tx, fun hb => by rw [f3]; exact g1.nobuf hb⟩, trivial,
+        by rw [f4]; exact g1.open_tx, trivial, g5.1, by rw [f1, htxs2], ?_⟩
+      intro h0
+      rw [hfd, h0] at hlt
+      omega
+    · have hb : bioFlush sc { o2 with close := .sent } v2 = ({ o2 with close := .sent }, v3, .ok ()) := by
+        simp [bioFlush, hctx2, hhs2, heq]
+      simp only [hb]
+      refine ⟨⟨ha.direct, ha.lim, by rw [f4]; exact g1.open_tx, fun _ => f3⟩, trivial,
+        by rw [f4]; exact g1.open_tx, trivial, g5.1, by rw [f1, htxs2], ?_⟩
+      intro _
+      refine ⟨f3, ?_⟩
+      have := f1
+      simp only [View.txs, f3, List.append_nil] at this
+      rw [this]; exact htxs2
+
+/-! ### `poll_read` -/
+
+/-- a transport read, whatever the state: it takes a prefix of the pipe -/
+theorem ioRead_any (sc : Sched) (v : View) (n : Nat) :
+    (∃ v', ioRead sc v n = (v', .pending .self) ∧ v'.rxs = v.rxs ∧ v'.own = true ∧ v'.tx = v.tx ∧
+      v'.tp.wbuf = v.tp.wbuf) ∨
+    (∃ v', ioRead sc v n = (v', .pending .reg) ∧ v'.rxs = v.rxs ∧ v.rxs = [] ∧ v'.rx.rwait = true ∧ v'.tx = v.tx ∧
+      v'.tp.wbuf = v.tp.wbuf ∧ v'.own = v.own) ∨
+    (∃ v' cs, ioRead sc v n = (v', .ready cs) ∧ v.rxs = cs ++ v'.rxs ∧ cs.length ≤ n ∧ v'.tx = v.tx ∧
+      v'.tp.wbuf = v.tp.wbuf ∧ v'.own = v.own) := by
+  unfold ioRead tRead
+  by_cases hlt : v.tp.cr < sc.dr
+  · left; simp [hlt, View.rxs]
+  · right
+    simp only [hlt, if_false]
+    by_cases he : v.rx.q.isEmpty = true
+    · have he' := (Q.isEmpty_iff _).1 he
+      simp only [he, if_true]
+      by_cases hc : (v.rx.closed || n == 0) = true
+      · right; simp only [hc, if_true]; exact ⟨_, _, rfl, by simp [View.rxs], by simp, rfl, rfl, rfl⟩
+      · left; simp only [hc, Bool.false_eq_true, if_false]
+        exact ⟨_, rfl, by simp [View.rxs], by simp [View.rxs, he'], rfl, rfl, rfl, rfl⟩
+    · right
+      simp only [he, Bool.false_eq_true, if_false]
+      refine ⟨_, _, rfl, ?_, ?_, rfl, rfl, rfl⟩
+      · simp only [View.rxs, Q.pop_fst, Q.pop_snd, List.take_append_drop]
+      · simp only [Q.pop_fst, List.length_take]; omega
+
+theorem plainOf_length_le : ∀ l : List Cell, (plainOf l).1.length ≤ l.length
+  | [] => by simp [plainOf]
+  | c :: cs => by
+    have := plainOf_length_le cs
+    cases c <;> simp [plainOf] <;> omega
+
+/-- what `SSL_read` through the shim does to the incoming cells -/
+structure ReadPost (n : Nat) (o : Ossl) (v : View) (o' : Ossl) (v' : View) (r : BioR (List UInt8)) : Prop where
+  tx : v'.tx = v.tx
+  wbuf : v'.tp.wbuf = v.tp.wbuf
+  consumed : ∃ C, v.rxs = C ++ v'.rxs ∧
+    match r with
+    | .ok bs => plainOf C = (bs, o'.rcvdClose) ∧ bs.length ≤ n ∧ (bs = [] → o'.rcvdClose = true)
+    | .wouldBlock p => plainOf C = ([], false) ∧ o'.rcvdClose = false ∧
+        (p = .self → v'.own = true) ∧ (p = .reg → v'.rx.rwait = true ∧ v'.rxs = [])
+    | .err => True
+    | .panic => False
+
+theorem sslRead_spec (sc : Sched) (n : Nat) (hn : n ≠ 0) : ∀ (fuel : Nat) (o : Ossl) (v : View),
+    o.ctx = true → o.handshaken = true → o.rcvdClose = false →
+    ReadPost n o v (sslRead sc n fuel o v).1 (sslRead sc n fuel o v).2.1 (sslRead sc n fuel o v).2.2 := by
+  intro fuel
+  induction fuel with
+  | zero => intro o v _ _ _; exact ⟨rfl, rfl, [], by simp [sslRead]⟩
+  | succ fuel ih =>
+    intro o v hc hh hrc
+    rw [sslRead]
+    have hcond : (o.rcvdClose || decide (n = 0)) = false := by simp [hrc, hn]
+    simp only [hcond, Bool.false_eq_true, if_false, bioRead, hc, hh, Bool.not_true, Bool.false_and]
+    rcases ioRead_any sc v n with ⟨v1, heq, h1, h2, h3, h4⟩ | ⟨v1, heq, h1, h2, h3, h4, h5, h6⟩ |
+      ⟨v1, cs, heq, h1, h2, h3, h4, h5⟩
+    · simp only [heq]
+      exact ⟨h3, h4, [], by simp [h1], by simp [plainOf], hrc, fun _ => h2, fun h => by simp at h⟩
+    · simp only [heq]
+      exact ⟨h4, h5, [], by simp [h1], by simp [plainOf], hrc, fun h => by simp at h, fun _ => ⟨h3, by rw [h1, h2]⟩⟩
+    · simp only [heq]
+      by_cases hemp : cs.isEmpty = true
+      · simp only [hemp, if_true]
+        exact ⟨h3, h4, cs, h1, trivial⟩
+      · simp only [hemp, Bool.false_eq_true, if_false]
+        cases hp : plainOf cs with
+        | mk pl al =>
+          simp only
+          by_cases hpe : pl.isEmpty = true
+          · have hpl : pl = [] := List.isEmpty_iff.1 hpe
+            simp only [hpe, Bool.not_true, Bool.false_eq_true, if_false]
+            by_cases hal : al = true
+            · simp only [hal, if_true]
+              refine ⟨h3, h4, cs, h1, ?_, by simp [hpl], fun _ => rfl⟩
+              rw [hp, hpl, hal]
+            · have hal' : al = false := by simpa using hal
+              simp only [hal', Bool.false_eq_true, if_false]
+              -- only overhead so far: read on
+              have hih := ih o v1 hc hh hrc
+              generalize sslRead sc n fuel o v1 = res at hih ⊢
+              obtain ⟨o2, v2, r2⟩ := res
+              obtain ⟨g1, g2, C, g3, g4⟩ := hih
+              simp only at g1 g2 g3 g4 ⊢
+              refine ⟨by rw [g1, h3], by rw [g2, h4], cs ++ C, by rw [h1, g3, List.append_assoc], ?_⟩
+              have hcat : plainOf (cs ++ C) = plainOf C := by
+                rw [plainOf_append_of_false cs C (by rw [hp, hal']), hp, hpl]
+                simp
+              cases r2 with
+              | ok bs => simp only at g4 ⊢; rw [hcat]; exact g4
+              | wouldBlock p => simp only at g4 ⊢; rw [hcat]; exact g4
+              | err => trivial
+              | panic => exact g4
+          · simp only [hpe, Bool.not_false, if_true]
+            refine ⟨h3, h4, cs, h1, by rw [hp], ?_, fun h => by simp [h] at hpe⟩
+            have := plainOf_length_le cs
+            rw [hp] at this
+            simp only at this; omega
+
+/-- **`TlsStream::poll_read`** (native-tls back-end, established stream): the call consumes a prefix `C` of the
+incoming cells; `Ready(bs)` returns exactly the plaintext of `C` (at most `n` bytes; empty only for a
+close_notify), `Pending` has consumed overhead / post-handshake cells only and has the transport's wake-up
+(`own`, or the waker registered on the empty pipe); the context pointer is cleared again. -/
+theorem pollRead_spec (sc : Sched) (o : Ossl) (v : View) (n : Nat) (hn : n ≠ 0) (hh : o.handshaken = true)
+    (hrc : o.rcvdClose = false) :
+    let r := pollRead sc o v n
+    r.1.ctx = false ∧ r.2.1.tx = v.tx ∧ r.2.1.tp.wbuf = v.tp.wbuf ∧
+    ∃ C, v.rxs = C ++ r.2.1.rxs ∧
+      (match r.2.2 with
+        | .ready bs => plainOf C = (bs, r.1.rcvdClose) ∧ bs.length ≤ n ∧ (bs = [] → r.1.rcvdClose = true)
+        | .pending p => plainOf C = ([], false) ∧ (p = .self → r.2.1.own = true) ∧
+            (p = .reg → r.2.1.rx.rwait = true ∧ r.2.1.rxs = [])
+        | .err => True
+        | .panic => False) := by
+  intro r
+  have hs := sslRead_spec sc n hn sc.fuel { o with ctx := true } v rfl hh hrc
+  have hr : r = (match sslRead sc n sc.fuel { o with ctx := true } v with
+      | (o, v, .ok a) => ({ o with ctx := false }, v, .ready a)
+      | (o, v, .wouldBlock p) => ({ o with ctx := false }, v, .pending p)
+      | (o, v, .err) => ({ o with ctx := false }, v, .err)
+      | (o, v, .panic) => ({ o with ctx := false }, v, .panic)) := by
+    simp only [r, pollRead, withContext]
+    generalize sslRead sc n sc.fuel _ v = res
+    obtain ⟨o2, v2, r2⟩ := res
+    cases r2 <;> rfl
+  rw [hr]
+  generalize sslRead sc n sc.fuel { o with ctx := true } v = res at hs
+  obtain ⟨o2, v2, r2⟩ := res
+  obtain ⟨g1, g2, C, g3, g4⟩ := hs
+  simp only at g1 g2 g3 g4
+  cases r2 with
+  | ok bs => exact ⟨rfl, g1, g2, C, g3, g4⟩
+  | wouldBlock p => exact ⟨rfl, g1, g2, C, g3, g4.1, g4.2.2⟩
+  | err => exact ⟨rfl, g1, g2, C, g3, trivial⟩
+  | panic => exact absurd g4 id
+
+/-- **in order, exactly once**: the plaintext of a sequence of records followed by anything is the
+concatenation of the records' plaintexts followed by the plaintext of the rest -/
+theorem plainOf_records : ∀ (ps : List (List UInt8)) (rest : List Cell),
+    plainOf ((ps.map record).flatten ++ rest) = (ps.flatten ++ (plainOf rest).1, (plainOf rest).2)
+  | [], rest => by simp
+  | p :: ps, rest => by
+    have ih := plainOf_records ps rest
+    simp only [List.map_cons, List.flatten_cons, List.append_assoc]
+    rw [plainOf_append_of_false _ _ (by rw [plainOf_record]), plainOf_record, ih]
+
 end Compio.TlsShim
